@@ -217,3 +217,54 @@ func ZZ_C12_O4() {
 	}
 	zzverif.Reach("O4 end")
 }
+
+// ZZ_C12_O5: ONE genesis validator (initial stake with the all-zero TxHash, no
+// collision) and a delegator; the validator unbonds its initial stake (which
+// force-releases the delegation).  Every released stake is refunded exactly
+// once: nothing before the refund height, power x 10^18 at it, nothing after,
+// and the unbonding ledger is empty afterwards.
+func ZZ_C12_O5() {
+	w := &zzWorld{gov: zzNewGov(), accts: zzNewAccts(3)}
+	w.sc = zzNewCtrler(zzverif.TempDir(), w.gov)
+	p0 := zzPower("power0")
+	zero := make([]byte, 32)
+	if xerr := w.sc.InitLedger([]*InitStake{{PubKeys: zzPub(0), Stakes: []*Stake{NewStakeWithPower(zzAddr(0), zzAddr(0), p0, 1, zero)}}}); xerr != nil {
+		panic(xerr)
+	}
+	withDeleg := zzverif.Choose("delegation", 2) == 1
+	pd := int64(0)
+	if withDeleg {
+		pd = zzPower("deleg")
+		d, _ := w.sc.delegateeLedger.GetFinality(ledger.ToLedgerKey(zzAddr(0)))
+		_ = d.AddStake(NewStakeWithPower(zzAddr(2), zzAddr(0), pd, 1, zzHash(5)))
+		_ = w.sc.delegateeLedger.SetFinality(d)
+	}
+	_, _, _ = w.sc.Commit()
+	w.height = 2
+	w.gov.lazyRewardBlocks = int64(zzverif.Choose("unbonding.period", 3))
+	var bal0 [3]*uint256.Int
+	for i := 0; i < 3; i++ {
+		bal0[i] = w.accts.FindAccount(zzAddr(i), true).GetBalance()
+	}
+	ctx := w.txctx(0, 0, ctrlertypes.TRX_UNSTAKING, uint256.NewInt(0), &ctrlertypes.TrxPayloadUnstaking{TxHash: zero}, zzHash(8))
+	zzverif.Assert(w.exec(ctx), "O5 the genesis validator can unbond its initial stake")
+	_, _, _ = w.sc.Commit()
+	refundAt := int64(2) + w.gov.lazyRewardBlocks
+	for h := int64(3); h <= refundAt+3; h++ {
+		bctx := zzBlockCtx(h, w.gov, w.accts, w.sc, nil, nil)
+		_, _ = w.sc.BeginBlock(bctx)
+		_, xerr := w.sc.EndBlock(bctx)
+		zzverif.Assert(xerr == nil, "O5 EndBlock succeeds")
+		_, _, _ = w.sc.Commit()
+		for i, p := range []int64{p0, 0, pd} {
+			got := new(uint256.Int).Sub(w.accts.FindAccount(zzAddr(i), true).GetBalance(), bal0[i])
+			if h < refundAt {
+				zzverif.Assert(got.IsZero(), "O5 nothing is refunded before the refund height")
+			} else {
+				zzverif.Assert(got.Eq(ctrlertypes.PowerToAmount(p)), "O5 from the refund height on the owner holds exactly one refund of power x 10^18")
+			}
+		}
+	}
+	zzverif.Assert(len(w.sc.ReadFrozenStakes()) == 0, "O5 refunded stakes have left the unbonding ledger")
+	zzverif.Reach("O5 end")
+}
